@@ -106,8 +106,13 @@ class Gen:
             return f"`{self.word()}` ({w})"
         if r < 0.82:
             return ">>> " + w
-        if r < 0.86 and style != "sphinx":
-            return f":param {self.word()}: {w}"
+        if r < 0.86:
+            if style != "sphinx":
+                return f":param {self.word()}: {w}"
+            # Sphinx: a continuation line is ANY more-indented line, also one that begins with a colon: an inline role at the
+            # start of a wrapped line, or text that reads like a field
+            return self.rng.choice([f":class:`{self.word()}` {w}", f":func:`{self.word()}`", f":exc:`{self.word()}`: {w}",
+                                    f":param {self.word()}: {w}", f":type {self.word()}: int", f":returns: {w}", f": {w}", f":{w}"])
         if r < 0.90:
             return "* " + w
         if r < 0.93:
@@ -833,6 +838,8 @@ def gen_sphinx_doc(g: Gen) -> dict:
 
     def desc():
         first = g.first_line()
+        if rng.random() < 0.08:
+            first = f":class:`{g.word()}` {first}"       # an inline role right after the field marker
         rest = []
         for _ in range(rng.choice([0, 0, 0, 1, 2, 3])):
             if rest and rest[-1] != "" and rng.random() < 0.15:
